@@ -53,6 +53,27 @@ def main(tier, replay):
         "max_in_segment, an odd TOF factor), geometry and data against the model; oracle on every ssrbinfo/ssrbdata operation: the part of the geometry "
         "whose argument is at its identity value is unchanged (segments with ring differences, axial positions and m; views with azimuthal offset and "
         "sampling; centred tangential range; TOF bins) and with nothing combined / trimmed every processed sinogram comes back bin by bin (also with do_norm). "
+        "REAL SCANNER GEOMETRIES AND NON-DYADIC RING SPACINGS (round 4): every predefined cylindrical scanner of Scanner.cxx (38 types: ECAT 9xx/962/HR+, "
+        "mMR, mCT, Vision 600, GE Advance/Discovery ST..690/Signa/Discovery MI 3-6 rings, HRRT, Allegro, GeminiTF, nanoPET, UPENN 5/6 rings ...) with its TRUE "
+        "number of rings (1..336) and ring spacing (6.54, 4.85, 3.29114, 5.56, 5.52296, 4.054, 3.9655, 1.17 ... mm), span 1 with all ring differences, the "
+        "mixed GE geometry (ProjDataInfoGE) for GE scanners, an odd span (thorough: every odd span up to 23), clipped ring differences on the long scanners, "
+        "few views / tangential positions (only the axial structure matters), TOF mashed to 1/3/5 bins; generated scanners with ring spacings drawn from 24 "
+        "non-dyadic decimals (3.1, 3.27, 4.85, 6.54, 2.208, 4.0546, 5.3, 2.65 ...), any 2-digit decimal or any float, 2..64 rings, every odd span and some "
+        "even ones, span 1 with 33..64 rings for each spacing (so every number of axial positions up to 64 meets each spacing at full and half sampling); "
+        "the ring spacing of the generated scanners of all other SSRB cases is drawn the same way. On each: the identity request, 3 (5) segments combined, a "
+        "restricted maximum segment, a random legal request: ssrbinfo (segment table with the NUMBER OF AXIAL POSITIONS of every output segment) and the new "
+        "operation `ssrbm` (first / last m and axial sampling in mm of every output segment against the model's exact value: quarter ring spacings x the exact "
+        "binary32 ring spacing, tolerance 4 ulp of numAx*sampling), ssrbphi, and -- where the geometry is small enough for the model (output sinograms x input "
+        "segments <= 1.7e5: all scanners up to 32 rings at span 1, the others at larger span / clipped ring differences) -- seeded detector-pair events aimed at "
+        "the ranges of the geometry and at the first / last axial positions, ssrbdata and all data oracles. New oracles on every ssrbinfo: a LEGAL request "
+        "(odd segments to combine whose groups exist, views / trim / max segment in range) must be served (theorem C15_ssrb_legal_request_served), and every "
+        "axial position of every input segment must have an output axial position with the same m, the output grid ending where the inputs end "
+        "(C15_ssrb_no_input_position_lost, C15_ssrb_output_grid_spans_input). "
+        "GRID SIZES DERIVED FROM FLOAT ZOOMS (round 4): VoxelsOnCartesianGrid(exam_info, proj_data_info, zooms, origin, sizes) on generated scanners "
+        "(non-dyadic ring spacing and bin size, arc-corrected and not, span 1/3, tangential ranges whose end is a multiple of 3/5/10/6/15) with zooms 1/3, 0.3, "
+        "2.2, 0.6, 0.7, 1.1, 2/3 ... and random, per-axis zooms, sizes -1 or given: index ranges, sizes (2*ceil(fov/voxel)+1 in binary32, transcribed with its "
+        "roundings) and voxel sizes compared EXACTLY with the model (operation `voxsize`); oracle: the derived grid is centred, odd, covers the field of view "
+        "and exceeds it by less than a voxel, voxel size = sampling/zoom. Zooms 2.2 and 0.6 added to the overlap_interpolate / zoom_image / zoom_viewgram draws. "
         "DEGENERATE zoom requests (round 3): per axis independently zoom exactly 1 with offset 0 / != 0 (pure shift by 1, 2, 1/2 or a random number of "
         "voxels) and zoom != 1 with offset 0 / != 0, i.e. offsets only in x, only in y, only in z, into a new grid of the same and of another size, "
         "standard centred and other index ranges, all three ZoomOptions, the 8 transaxial combinations x 3 options x same/other size in turn; every "
@@ -85,7 +106,14 @@ def main(tier, replay):
         "sinograms around the output's m, ramp in m reproduced, incompatible data refused; extend_segment: original data untouched, no invented values, "
         "added views equal the views one period away (360 degrees: same tangential position; 180 degrees, segment 0: mirrored).")
     chk.assumptions += ["32-bit overflow not modelled", "float m / TOF-k comparisons of SSRB (1E-4 mm) replaced by exact quarter-ring / unmashed-bin integers "
-                        "(scanner ring spacing is a dyadic float in the generated scanners)",
+                        "(valid while the rounding error of the float get_m stays below 1E-4 mm; for scanners whose axial positions reach 1024 mm -- UPENN 5/6 rings -- "
+                        "it does not: known finding ssrb:m-tolerance-below-float-precision-on-scanners-longer-than-1m, repair build/fixes/C15-4; such cases are "
+                        "reported under that key and withheld from the model comparison only when the implementation loses counts and does nothing else wrong)",
+                        "SSRB data comparison with the model only for geometries with (output sinograms x input segments) <= 1.7e5; larger ones (span 1 with all ring "
+                        "differences on scanners with more than 32 rings) are compared on geometry (ssrbinfo/ssrbm/ssrbphi + geometry oracles) only",
+                        "real scanners keep their true number of detectors per ring but few views / tangential positions; SSRB(output_filename,...) is not run on them",
+                        "VoxelsOnCartesianGrid from projection data: the field-of-view radius (largest |get_s| of the outermost tangential positions) is an input of the "
+                        "model (get_s: C01/C12); default_bin_size > 0, at least 2 views, cylindrical data",
                         "TOF bins to combine: odd factors only (even factors put input bin edges on output bin edges, decided by float rounding)",
                         "float rounding of the implementation is bounded, not modelled (except the single binary32 division of the normalised SSRB)",
                         "zoom_viewgram: cos(phi), sin(phi) are taken from binary64 cos/sin of the float angle returned by get_phi (get_phi itself: C01/C12; the "
